@@ -144,7 +144,7 @@ func runSiot(stdin []byte, args ...string) ([]byte, string, error) {
 func runC15(tier string, _ []string) int {
 	c := vlib.NewCtx("C15", tier, "exploration")
 	vlib.SetPortBlock(15)
-	c.SetRule("per case: a generated tree (depth <=5, fan-out <=6, <=60 nodes, mirrors inside the tree, deleted children, tombstoned points, keys ''/'0'/index/map keys, nodeID cross-references inside and outside the tree, live and tombstoned) whose point texts come from a pool of YAML-significant / Unicode / control / multi-line strings and whose values cover integers, fractions, exponents and +-Inf, built on a live instance; ExportNodes (the result is held while three more exports are made and must not change) then ImportNodes (same parent, other parent, root of a second instance; with and without preserveIDs); the imported subtree is read back and compared with the source by matching nodes through a unique marker point: shape, types, point multisets (type, key ''=='0', value, text, tombstone), edge points (tombstone 0 == absent), id map bijective and applied to nodeID texts, ' (import)' on the top description only, deleted nodes absent; in every second case without id preservation the same bytes are imported a second time next to the first copy and compared again. Every third tree carries one text of 66-130 KiB on its top node; every sixth case exports and imports through the siot command line tool (built from the same tree): its export must be byte for byte the library's, and what its import creates is compared like any other copy. distinct = (text classes present, value classes present, target kind, preserveIDs)")
+	c.SetRule("per case: a generated tree (depth <=5, fan-out <=6, <=60 nodes, mirrors inside the tree, deleted children, tombstoned points, keys ''/'0'/index/map keys, nodeID cross-references inside and outside the tree, live and tombstoned) whose point texts come from a pool of YAML-significant / Unicode / control / multi-line strings and whose values cover integers, fractions, exponents and +-Inf, built on a live instance; ExportNodes (the result is held while three more exports are made and must not change) then ImportNodes (same parent, other parent, root of a second instance; with and without preserveIDs; over the original after it has been deleted, ids preserved: it must be back alive); the imported subtree is read back and compared with the source by matching nodes through a unique marker point: shape, types, point multisets (type, key ''=='0', value, text, tombstone), edge points (tombstone 0 == absent), id map bijective and applied to nodeID texts, ' (import)' on the top description only, deleted nodes absent; in every second case without id preservation the same bytes are imported a second time next to the first copy and compared again. Every third tree carries one text of 66-130 KiB on its top node; every sixth case exports and imports through the siot command line tool (built from the same tree): its export must be byte for byte the library's, and what its import creates is compared like any other copy. distinct = (text classes present, value classes present, target kind, preserveIDs)")
 	c.Assume("times, origins and data are not compared (import re-stamps; the property lists type, key, value, text, tombstone)")
 	nTrees := c.N(30, 500)
 	vlib.Parallel(nTrees, 5, func(i int) {
@@ -160,7 +160,7 @@ func runC15(tier string, _ []string) int {
 			c.Inconclusive(err.Error())
 			return
 		}
-		targetKind := []string{"same-parent", "other-parent", "other-instance", "other-instance-preserve"}[i%4]
+		targetKind := []string{"same-parent", "other-parent", "other-instance", "other-instance-preserve", "restore-deleted"}[i%5]
 		// in the focused mode one text class / value class is used so that a failure names its class
 		focused := i%2 == 0
 		var textPool []yamlText
@@ -415,8 +415,16 @@ func runC15(tier string, _ []string) int {
 		tnc := nc
 		tin := src
 		var parent string
-		preserve := targetKind == "other-instance-preserve"
+		preserve := targetKind == "other-instance-preserve" || targetKind == "restore-deleted"
 		switch targetKind {
+		case "restore-deleted":
+			// the exported node is deleted where it stands and the export is imported over it with its ids
+			// preserved: the subtree is back, alive, as it was
+			parent = grp
+			if err := send(vlib.EdgeSubj(top.ID, grp), data.Points{{Type: data.PointTypeTombstone, Time: now(), Value: 1}}); err != nil {
+				c.Violate("store:legal-write-refused", err.Error(), nil)
+				return
+			}
 		case "same-parent":
 			parent = grp
 		case "other-parent":
@@ -493,6 +501,13 @@ func runC15(tier string, _ []string) int {
 		}
 		if preserve {
 			newTop = top.ID
+		}
+		if targetKind == "restore-deleted" {
+			live, err := client.GetNodes(tnc, parent, top.ID, "", false)
+			if err != nil || len(live) != 1 {
+				c.Violate("import:deleted-node-not-restored", fmt.Sprintf("the export was imported (ids preserved) over the deleted original: import reported success, %d live nodes %s below %s afterwards (%v)", len(live), top.ID, parent, err), wit)
+				return
+			}
 		}
 		if newTop == "" {
 			c.Violate("import:no-top-node", "no new node under the target parent after import", wit)
